@@ -10,9 +10,14 @@ Subject: `HailVerif.TypeStr` (`Model/TypeStr.lean`), the model of `HailType.__st
 the literals extracted from `Parser.scala` / `StringEscapeUtils.scala` (`Generated/IRLexer.lean`, regenerated on every run).
 Tied to the Python code by the correspondence check `harness/props/c31.py`.
 
-Strings are arbitrary lists of code points; `cc` are the `\w` / `\s` classes outside ASCII and `jc` the Java identifier
-classes: the general theorems hold for every choice of them, the refutations use the concrete tables of
-`Generated/UnicodeClasses.lean`.
+Strings are lists of code points (names: Unicode scalar values, `ValidStr`); `cc` are the `\w` / `\s` classes outside ASCII and
+`jc` the Java identifier classes: the general theorems hold for every choice of them (for `jc`: every table that classifies
+ASCII letters, digits and `_` as identifier characters), the concrete instances use the tables of `Generated/UnicodeClasses.lean`.
+
+The engine half was REFUTED for the code as found (four witness classes: `\xNN`, `\UNNNNNNNN`, raw non-Java identifier
+characters, `\u` + five digits in `escape_id`); the escapers were repaired in /repo (escape_parsable / unescape_parsable in
+hail/utils/java.py, escape_str / escape_id in hail/utils/misc.py) and the model follows the repaired code: the full statement
+now holds (`engine_accepts_emitted`, `engine_accepts_escape_id`).
 -/
 namespace HailVerif.C31
 open HailVerif.TypeStr HailVerif.EngineLexer HailVerif.Generated.UnicodeClasses
@@ -28,26 +33,27 @@ compositional form (`weight t ≤ |str t|`, so `dtype`'s own fuel always suffice
 theorem parse_pretty_in_context (cc : Classes) (t : HType) (h : WF t) (f : Nat) (hf : weight t ≤ f) (rest : Str)
     (hr : Follow rest) : pType cc f (str cc t ++ rest) = some (t, rest) := pType_str cc t h f hf rest hr
 
-/-- **`unescape_parsable ∘ escape_parsable = id`**: what `escape_parsable` puts between the backticks decodes to the name. -/
-theorem unescape_escape (s : Str) (h : ValidStr s) : unescapeParsable (replaceBacktick (unicodeEscape s)) = some s :=
+/-- **`unescape_parsable ∘ escape_parsable = id`**: what `escape_parsable` puts between the backticks decodes to the name
+(`\uD83D\uDE00` decodes to two surrogates which `unescape_parsable` puts back together). -/
+theorem unescape_escape (s : Str) (h : ValidStr s) : unescapeParsable (replaceBacktick (parsableEscape s)) = some s :=
   unescapeParsable_escaped s h
 
-/-- **An emitted identifier is a `\w+` word or a backticked literal** that the grammar's `escaped_identifier` regex
-delimits exactly and whose content decodes to the name. -/
-theorem ident_word_or_backticked (cc : Classes) (n : Str) :
-    (escapeParsable cc n = n ∧ n ≠ [] ∧ ∀ c ∈ n, cc.isWord c = true) ∨
-    (∃ body, escapeParsable cc n = 96 :: (body ++ [96]) ∧
+/-- **An emitted identifier is an ASCII `[_a-zA-Z][_a-zA-Z0-9]*` word or a backticked literal** that the grammar's
+`escaped_identifier` regex delimits exactly and whose content decodes to the name. -/
+theorem ident_word_or_backticked (n : Str) :
+    (escapeParsable n = n ∧ n ≠ [] ∧ ∀ c ∈ n, asciiWord c = true) ∨
+    (∃ body, escapeParsable n = 96 :: (body ++ [96]) ∧
       (∀ rest, scanEscaped (body ++ 96 :: rest) = some (body, rest)) ∧ (ValidStr n → unescapeParsable body = some n)) := by
   unfold escapeParsable
   split
   · rename_i h
-    obtain ⟨c, r, rfl, _, hall⟩ := isParsable_words cc n h
+    obtain ⟨c, r, rfl, _, hall, _⟩ := isParsable_words ⟨fun _ => false, fun _ => false⟩ n h
     exact Or.inl ⟨rfl, by simp, hall⟩
   · exact Or.inr ⟨_, rfl, fun rest => scan_body n rest, unescapeParsable_escaped n⟩
 
 /-- The grammar rule `identifier` reads an emitted identifier back (before `:` or `>`), whatever the name. -/
 theorem identifier_roundtrip (cc : Classes) (n : Str) (h : ValidStr n) (p : Nat) (rest : Str) (hp : p = 58 ∨ p = 62) :
-    pIdentifier cc (escapeParsable cc n ++ p :: rest) = some (n, p :: rest) :=
+    pIdentifier cc (escapeParsable n ++ p :: rest) = some (n, p :: rest) :=
   pIdentifier_escape cc n h p rest (by rcases hp with h | h <;> subst h <;> simp [Punct])
 
 /-! ## Engine side -/
@@ -59,122 +65,137 @@ def EngineAccepts (jc : JavaClasses) (emitted name : Str) : Prop :=
     identifier jc (utf16 emitted ++ rest) = some (utf16 name, rest)
 
 /-- **FULL STATEMENT** of the engine half of the property: every identifier `escape_parsable` can emit is accepted by the
-engine's lexer and denotes the same name.  It does NOT hold for the unchanged code — see `engine_accepts_emitted_refuted`
-and the three witness theorems; `engine_accepts_emitted_partial` is what does hold. -/
-def EngineAcceptsEmitted (cc : Classes) (jc : JavaClasses) : Prop :=
-  ∀ name, ValidStr name → EngineAccepts jc (escapeParsable cc name) name
+engine's lexer and denotes the same name. -/
+def EngineAcceptsEmitted (jc : JavaClasses) : Prop :=
+  ∀ name, ValidStr name → EngineAccepts jc (escapeParsable name) name
 
-/-- witness class 1: U+0000 is emitted as `` `\x00` ``; `x` is not in the lexer's `escapeChars` -/
-theorem engine_rejects_x_escape : identifier javaClasses (utf16 (escapeParsable pyClasses [0])) = none := by decide +kernel
+/-- what is needed of the Java identifier tables: ASCII letters and `_` start an identifier, ASCII letters, digits and `_`
+continue one -/
+structure AsciiIdent (jc : JavaClasses) : Prop where
+  start : ∀ c, (c == 95 || asciiLetter c) = true → jc.start c = true
+  part : ∀ c, asciiWord c = true → jc.part c = true
 
-/-- the realistic instance of class 1: field name `é` → `` `\xe9` `` -/
-theorem engine_rejects_latin1 : identifier javaClasses (utf16 (escapeParsable pyClasses [233])) = none := by decide +kernel
-
-/-- witness class 2: U+10000 is emitted as `` `\U00010000` `` -/
-theorem engine_rejects_U_escape : identifier javaClasses (utf16 (escapeParsable pyClasses [65536])) = none := by decide +kernel
-
-/-- witness class 3: `A²` matches `[_a-zA-Z][\w_]*` (Python's Unicode `\w` contains category No), is emitted raw, and the
-engine's `ident` stops after `A` -/
-theorem engine_splits_raw_nonjava :
-    escapeParsable pyClasses [65, 178] = [65, 178] ∧
-    identifier javaClasses (utf16 (escapeParsable pyClasses [65, 178])) = some ([65], [178]) := by decide +kernel
-
-/-- witness class 4 (`escape_id`, the IR identifier escaper): U+10000 is emitted as `` `က0` ``, which the engine reads as
-U+1000 followed by `0` — accepted, but a different name -/
-theorem engine_misreads_escape_id_astral :
-    identifier javaClasses (utf16 (escapeId pyClasses [65536])) = some ([4096, 48], []) ∧ utf16 [65536] = [55296, 56320] := by
-  decide +kernel
-
-/-- the full statement is refuted (witness: the field name consisting of U+0000) -/
-theorem engine_accepts_emitted_refuted : ¬ EngineAcceptsEmitted pyClasses javaClasses := by
-  intro h
-  have := h [0] (by intro c hc; simp at hc; omega) [] (by intro p r h; cases h)
-  rw [List.append_nil, engine_rejects_x_escape] at this
-  cases this
-
-/-- names for which the emitted form only uses what the engine admits: a raw name must consist of BMP characters that are
-Java identifier parts; a backticked one of `\t \n \r`, printable ASCII and U+0100–U+FFFF (so that only `\t \n \r \\ \``
-and `\uXXXX` escapes occur) -/
-def SafeName (cc : Classes) (jc : JavaClasses) (name : Str) : Prop :=
-  if isParsable cc name then ∀ c ∈ name, c < 65536 ∧ jc.part c = true else ∀ c ∈ name, EscOK c
-
-/-- **What holds of the engine half**: under `SafeName` the engine lexes the emitted identifier to exactly the name.
-Missing for the full statement: U+0000–U+001F (other than `\t \n \r`) and U+007F–U+00FF (`\xNN`), astral characters
-(`\UNNNNNNNN`), and raw names with a `\w` character that is not a Java identifier part. -/
-theorem engine_accepts_emitted_partial (cc : Classes) (jc : JavaClasses)
-    (hstart : ∀ c, (c == 95 || asciiLetter c) = true → jc.start c = true)
-    (name : Str) (h : SafeName cc jc name) : EngineAccepts jc (escapeParsable cc name) name := by
+/-- a raw (unescaped) ASCII identifier is lexed by `JavaTokenParsers.ident` to itself -/
+theorem engine_accepts_raw (jc : JavaClasses) (hj : AsciiIdent jc) (c : Nat) (r : Str)
+    (hc : (c == 95 || asciiLetter c) = true) (hall : ∀ d ∈ c :: r, asciiWord d = true) : EngineAccepts jc (c :: r) (c :: r) := by
   intro rest hrest
-  unfold SafeName at h
+  have hsmall : ∀ d ∈ c :: r, d < 65536 := fun d hd => by have := asciiWord_lt d (hall d hd); omega
+  rw [utf16_small _ hsmall]
+  have hc' := hc
+  simp only [asciiLetter, Bool.or_eq_true, beq_iff_eq, Bool.and_eq_true, decide_eq_true_eq] at hc'
+  have hws : javaSpace c = false := by
+    simp only [javaSpace, Bool.or_eq_false_iff, beq_eq_false_iff_ne, Bool.and_eq_false_iff, decide_eq_false_iff_not]
+    omega
+  have h96 : c ≠ 96 := by omega
+  have hspan := spanPart_all jc r rest (fun d hd => hj.part d (hall d (by simp [hd]))) hrest
+  simp [identifier, quotedLiteral, javaIdent, skipJavaWs, hws, Generated.IRLexer.backtickDelimiter, h96, hj.start c hc, hspan]
+
+/-- a backticked literal whose body is a sequence of admissible tokens is lexed to the values of the tokens -/
+theorem engine_accepts_backticked (jc : JavaClasses) (ts : List Tok) (hts : ∀ t ∈ ts, t.OK)
+    (hsmall : ∀ b ∈ ts.flatMap Tok.text, b < 65536) (rest : List Nat) :
+    identifier jc (utf16 (96 :: (ts.flatMap Tok.text ++ [96])) ++ rest) = some (ts.map Tok.val, rest) := by
+  have h1 : utf16 (96 :: (ts.flatMap Tok.text ++ [96])) = 96 :: (ts.flatMap Tok.text ++ [96]) := by
+    apply utf16_small
+    intro d hd
+    simp only [List.mem_cons, List.mem_append, List.mem_nil_iff, or_false] at hd
+    rcases hd with rfl | hd | rfl
+    · decide
+    · exact hsmall d hd
+    · decide
+  rw [h1]
+  have := quotedLiteral_toks ts hts rest
+  simp only [List.cons_append, List.append_assoc, List.nil_append]
+  simp [identifier, Generated.IRLexer.backtickDelimiter, this]
+
+/-- **The engine half holds** (repaired code): for every name of Unicode scalar values, the identifier `escape_parsable` emits
+— in `_parsable_string()`, i.e. in every type written into IR text — is accepted by the engine's lexer and denotes exactly
+that name: raw names are ASCII words, backticked ones use only `\\ \t \n \r` the escaped backtick and `\uXXXX` per UTF-16 unit. -/
+theorem engine_accepts_emitted (jc : JavaClasses) (hj : AsciiIdent jc) : EngineAcceptsEmitted jc := by
+  intro name hname rest hrest
   unfold escapeParsable
   split
   · rename_i hp
-    rw [if_pos hp] at h
-    obtain ⟨c, r, rfl, hc, _⟩ := isParsable_words cc name hp
-    have hsmall : ∀ d ∈ c :: r, d < 65536 := fun d hd => (h d hd).1
-    rw [utf16_small _ hsmall]
-    have hc' := hc
-    simp only [asciiLetter, Bool.or_eq_true, beq_iff_eq, Bool.and_eq_true, decide_eq_true_eq] at hc'
-    have hws : javaSpace c = false := by
-      simp only [javaSpace, Bool.or_eq_false_iff, beq_eq_false_iff_ne, Bool.and_eq_false_iff, decide_eq_false_iff_not]
-      omega
-    have h96 : c ≠ 96 := by omega
-    have hspan := spanPart_all jc r rest (fun d hd => (h d (by simp [hd])).2) hrest
-    simp [identifier, quotedLiteral, javaIdent, skipJavaWs, hws, Generated.IRLexer.backtickDelimiter, h96, hstart c hc, hspan]
+    obtain ⟨c, r, rfl, hc, hall, _⟩ := isParsable_words ⟨fun _ => false, fun _ => false⟩ name hp
+    exact engine_accepts_raw jc hj c r hc hall rest hrest
+  · obtain ⟨ts, h1, h2, h3⟩ := parsable_body_toks name (fun c hc => (hname c hc).1)
+    rw [← h2, ← h3]
+    exact engine_accepts_backticked jc ts h1 (by rw [h2]; exact body_ascii name) rest
+
+/-- the same for `escape_id`, the escaper of IR identifiers (field names in `GetField`, `Ref` names, …): astral characters are
+written as surrogate pairs, non-ASCII names are backticked -/
+theorem engine_accepts_escape_id (jc : JavaClasses) (hj : AsciiIdent jc) (name : Str) (hname : ValidStr name) :
+    EngineAccepts jc (escapeId name) name := by
+  intro rest hrest
+  unfold escapeId
+  split
   · rename_i hp
-    rw [if_neg hp] at h
-    have hsmall : ∀ d ∈ name, d < 65536 := by
-      intro d hd; have := h d hd; unfold EscOK at this; omega
-    have hbody := body_ascii name
-    have h1 : utf16 (96 :: (replaceBacktick (unicodeEscape name) ++ [96])) = 96 :: (replaceBacktick (unicodeEscape name) ++ [96]) := by
-      apply utf16_small
-      intro d hd
-      simp only [List.mem_cons, List.mem_append, List.mem_nil_iff, or_false] at hd
-      rcases hd with rfl | hd | rfl
-      · decide
-      · exact hbody d hd
-      · decide
-    rw [h1, utf16_small _ hsmall]
-    have hq := quotedBody_body name h rest
-    have hu := unescapeString_body name h ((replaceBacktick (unicodeEscape name)).length + 1)
-      (by have := length_le_body name; omega)
-    simp only [List.cons_append, List.append_assoc, List.nil_append]
-    simp [identifier, quotedLiteral, skipJavaWs, javaSpace, Generated.IRLexer.backtickDelimiter, hq, hu]
+    cases name with
+    | nil => simp [isPlainId] at hp
+    | cons c r =>
+      simp only [isPlainId, Bool.and_eq_true, List.all_eq_true] at hp
+      have hall : ∀ d ∈ c :: r, asciiWord d = true := by
+        intro d hd
+        rcases List.mem_cons.1 hd with rfl | hd
+        · have := hp.1
+          simp only [asciiWord, asciiLetter, asciiDigit, Bool.or_eq_true, Bool.and_eq_true, decide_eq_true_eq, beq_iff_eq] at this ⊢
+          omega
+        · exact hp.2 d hd
+      exact engine_accepts_raw jc hj c r hp.1 hall rest hrest
+  · obtain ⟨ts, h1, h2, h3⟩ := id_body_toks name (fun c hc => (hname c hc).1)
+    rw [← h2, ← h3]
+    refine engine_accepts_backticked jc ts h1 ?_ rest
+    rw [h2]
+    intro b hb
+    simp only [List.mem_flatMap] at hb
+    obtain ⟨c, hc, hb⟩ := hb
+    exact escapeStrChar_small c (hname c hc).1 b hb
 
-/-- the hypothesis of the partial theorem about the Java tables holds for the generated ones -/
-theorem javaClasses_start_ascii : ∀ c, (c == 95 || asciiLetter c) = true → javaClasses.start c = true := by
-  intro c hc
-  have hlt : c < 128 := by
-    simp only [asciiLetter, Bool.or_eq_true, beq_iff_eq, Bool.and_eq_true, decide_eq_true_eq] at hc; omega
-  have key : ∀ c, c < 128 → (c == 95 || asciiLetter c) = true → javaClasses.start c = true := by decide +kernel
-  exact key c hlt hc
+/-- the generated Java tables classify ASCII as required -/
+theorem javaClasses_ascii : AsciiIdent javaClasses := by
+  constructor
+  · intro c hc
+    have hlt : c < 128 := by
+      simp only [asciiLetter, Bool.or_eq_true, beq_iff_eq, Bool.and_eq_true, decide_eq_true_eq] at hc; omega
+    have key : ∀ c, c < 128 → (c == 95 || asciiLetter c) = true → javaClasses.start c = true := by decide +kernel
+    exact key c hlt hc
+  · intro c hc
+    have key : ∀ c, c < 128 → asciiWord c = true → javaClasses.part c = true := by decide +kernel
+    exact key c (asciiWord_lt c hc) hc
 
-/-- the partial theorem for the concrete tables of the running interpreter / Java SE definition -/
-theorem engine_accepts_emitted_partial_concrete (name : Str) (h : SafeName pyClasses javaClasses name) :
-    EngineAccepts javaClasses (escapeParsable pyClasses name) name :=
-  engine_accepts_emitted_partial pyClasses javaClasses javaClasses_start_ascii name h
+/-- the engine half for the concrete tables of the Java SE definition -/
+theorem engine_accepts_emitted_concrete : EngineAcceptsEmitted javaClasses := engine_accepts_emitted javaClasses javaClasses_ascii
+
+/-- the four former witnesses (U+0000 → `\x00`, é → `\xe9`, U+10000 → `\U00010000`, `A²` emitted raw; `escape_id` writing
+`\u10000`) are now lexed to the name -/
+theorem former_witnesses_accepted :
+    identifier javaClasses (utf16 (escapeParsable [0])) = some ([0], []) ∧
+    identifier javaClasses (utf16 (escapeParsable [233])) = some ([233], []) ∧
+    identifier javaClasses (utf16 (escapeParsable [65536])) = some ([55296, 56320], []) ∧
+    identifier javaClasses (utf16 (escapeParsable [65, 178])) = some ([65, 178], []) ∧
+    identifier javaClasses (utf16 (escapeId [65536])) = some (utf16 [65536], []) ∧
+    identifier javaClasses (utf16 (escapeId [65, 178])) = some ([65, 178], []) := by
+  decide +kernel
 
 /-! ## Non-vacuity: concrete types and names at the boundaries -/
 
--- struct{`é x`: int32, a: array<str>}: a Latin-1 name with a space, printed with \xe9
+-- struct{`é x`: int32, a: array<str>}: a Latin-1 name with a space, printed with \u00e9
 example : str pyClasses (.struct [([233, 32, 120], .int32), ([97], .array .str)]) =
-    cp% "struct{`\\xe9 x`: int32, a: array<str>}" := by decide +kernel
--- and parsed back
+    cp% "struct{`\\u00e9 x`: int32, a: array<str>}" := by decide +kernel
+-- and parsed back; the form older versions printed (`\xe9`) still parses to the same type
+example : (dtype pyClasses (cp% "struct{`\\u00e9 x`: int32, a: array<str>}")).map (str pyClasses) =
+    some (cp% "struct{`\\u00e9 x`: int32, a: array<str>}") := by decide +kernel
 example : (dtype pyClasses (cp% "struct{`\\xe9 x`: int32, a: array<str>}")).map (str pyClasses) =
-    some (cp% "struct{`\\xe9 x`: int32, a: array<str>}") := by decide +kernel
--- backtick, backslash, newline, an emoji; empty struct / tuple; ndarray dimension; locus
+    some (cp% "struct{`\\u00e9 x`: int32, a: array<str>}") := by decide +kernel
+-- backtick, backslash, newline, an emoji (a surrogate pair in the text); empty struct / tuple; ndarray dimension; locus
 example : (dtype pyClasses (str pyClasses (.struct [([96, 92, 10, 128512], .tuple []), ([], .struct []),
     ([120], .ndarray .float64 12), ([121], .dict (.locus (cp% "my ref")) (.set .call))]))).map (parsable pyClasses) =
-    some (cp% "Struct{`\\`\\\\\\n\\U0001f600`:Tuple[],``:Struct{},x:NDArray[Float64,12],y:Dict[Locus(`my ref`),Set[Call]]}") := by
+    some (cp% "Struct{`\\`\\\\\\n\\ud83d\\ude00`:Tuple[],``:Struct{},x:NDArray[Float64,12],y:Dict[Locus(`my ref`),Set[Call]]}") := by
   decide +kernel
 -- the hypotheses of `parse_pretty` are satisfiable by such a type
 example : WF (.struct [([96, 92, 10, 128512], .tuple []), ([], .struct [])]) := by
   simp [WF, WFFields, WFTypes, ValidStr]
--- a safe name in the sense of the partial theorem: `a b` with a tab and U+4E2D
-example : SafeName pyClasses javaClasses [97, 32, 98, 9, 20013] := by
-  have : isParsable pyClasses [97, 32, 98, 9, 20013] = false := by decide +kernel
-  simp [SafeName, this, EscOK]
-example : identifier javaClasses (utf16 (escapeParsable pyClasses [97, 32, 98, 9, 20013])) = some ([97, 32, 98, 9, 20013], []) := by
+-- `a b` with a tab and U+4E2D, as the engine reads it
+example : identifier javaClasses (utf16 (escapeParsable [97, 32, 98, 9, 20013])) = some ([97, 32, 98, 9, 20013], []) := by
   decide +kernel
 -- duplicate field names are what `WF` excludes: `dict(fields)` collapses them, so the printed text does not round-trip
 example : (dtype pyClasses (cp% "struct{a: int32, a: str}")).map (str pyClasses) = some (cp% "struct{a: str}") := by
